@@ -206,8 +206,6 @@ Proof.
   apply Z.log2_spec. lia.
 Qed.
 
-(* a number the parser can read back: not negative, at most 4300 digits *)
-Definition num_ok (n : Z) : bool := (0 <=? n) && int_ok (r_number n).
 
 Lemma p_int_number n r : num_ok n = true -> p_int (r_number n) r = ROk n r.
 Proof.
@@ -257,8 +255,6 @@ Qed.
 Lemma scan_quoted_other c r : c <> 34 -> scan_quoted (c :: r) = None.
 Proof. intros H. unfold scan_quoted. destruct (Z.eqb_spec c 34); [contradiction|reflexivity]. Qed.
 
-(* a string whose length can be written in a literal prefix *)
-Definition str_ok (v : list Z) : bool := num_ok (Z.of_nat (List.length v)).
 
 Lemma scan_lit_ref_app plus v r :
   scan_lit_ref (r_literal plus v ++ r) = Some (r_number (Z.of_nat (List.length v)), v ++ r).
@@ -345,9 +341,6 @@ Proof.
 Qed.
 
 (* ------------------------------------------------------------------ mailbox names *)
-(* a name the parser hands on unchanged *)
-Definition mailbox_ok (m : list Z) : bool := beq (mailbox_norm m) m && str_ok m.
-Definition pattern_ok (p : list Z) : bool := beq (pattern_norm p) p && str_ok p.
 
 Lemma beq_eq a b : beq a b = true -> a = b.
 Proof.
@@ -401,11 +394,6 @@ Proof.
 Qed.
 
 (* ------------------------------------------------------------------ flags *)
-Definition flag_ok (f : list Z) : bool :=
-  match f with
-  | c :: a => if c =? 92 then is_atom a else is_atom f
-  | [] => false
-  end.
 
 Lemma p_flag_app f r : flag_ok f = true -> stops r = true -> p_flag (f ++ r) = ROk f r.
 Proof.
@@ -422,10 +410,6 @@ Proof.
 Qed.
 
 (* ------------------------------------------------------------------ message sets *)
-Definition satom_ok (a : sset_atom) : bool := match a with AStar => true | ANum n => num_ok n end.
-Definition selt_ok (e : sset_elt) : bool :=
-  match e with EStar => true | ENum n => num_ok n | ERange a b => satom_ok a && satom_ok b end.
-Definition set_ok (l : list sset_elt) : bool := match l with [] => false | _ => forallb selt_ok l end.
 
 Lemma split_on_none c a : forallb (fun x => negb (x =? c)) a = true -> split_on c a = [a].
 Proof.
@@ -534,3 +518,181 @@ Proof.
   unfold p_msg_set. rewrite span_app; [|exact H1|apply stops_ends; [apply stop_not_msgset|exact Hr]].
   destruct (r_set (e :: l)) eqn:E; [contradiction|]. rewrite H2, seq_elts_r by exact Hl. reflexivity.
 Qed.
+
+(* ------------------------------------------------------------------ dates *)
+Ltac bsc := repeat match goal with
+                   | |- context [bs ?s] => let x := eval vm_compute in (bs s) in change (bs s) with x
+                   end.
+
+
+Lemma scan_month_kw ch site m r : 1 <= m <= 12 -> scan_month (kw ch site (month_name m) ++ r) = Some (m, r).
+Proof.
+  intros Hm. unfold kw. set (f := c_kw ch site).
+  assert (C : m = 1 \/ m = 2 \/ m = 3 \/ m = 4 \/ m = 5 \/ m = 6 \/ m = 7 \/ m = 8 \/ m = 9 \/ m = 10 \/ m = 11 \/ m = 12) by lia.
+  repeat (destruct C as [C|C]; [subst m; cbn [month_name]; bsc; cbn [kw_case_from];
+                                destruct (f 0%nat), (f 1%nat), (f 2%nat); reflexivity|]).
+  subst m; cbn [month_name]; bsc; cbn [kw_case_from]; destruct (f 0%nat), (f 1%nat), (f 2%nat); reflexivity.
+Qed.
+
+Lemma scan_mon_year_app ch site m y r : 1 <= m <= 12 -> 0 <= y <= 9999 ->
+  scan_mon_year (45 :: kw ch site (month_name m) ++ 45 :: r_four y ++ r) = Some (m, y, r).
+Proof.
+  intros Hm Hy. unfold scan_mon_year. change (45 =? 45) with true. cbv iota.
+  rewrite scan_month_kw by exact Hm. unfold r_four. cbn [app].
+  change (45 =? 45) with true. rewrite !digit_48 by lia. cbn [andb]. rewrite four_r_four by exact Hy. reflexivity.
+Qed.
+
+Lemma date_ok_range y m d : date_ok y m d = true -> 1 <= y <= 9999 /\ 1 <= d <= 31.
+Proof.
+  unfold date_ok, days_in_month. intros H. zbool.
+  destruct (m =? 2); [destruct (is_leap y)|destruct ((m =? 4) || (m =? 6) || (m =? 9) || (m =? 11))]; lia.
+Qed.
+
+Lemma scan_date_text_app ch site y m d r : date_wf (y, m, d) = true ->
+  scan_date_text ((if c_opt ch (site + 1) && (d <? 10) then [48 + d] else r_two d)
+                  ++ 45 :: kw ch site (month_name m) ++ 45 :: r_four y ++ r) = Some (d, m, y, r).
+Proof.
+  unfold date_wf. intros H. zbool. destruct (date_ok_range _ _ _ H0) as [Hy Hd].
+  assert (Hm : 1 <= m <= 12) by lia.
+  destruct (c_opt ch (site + 1) && (d <? 10)) eqn:E.
+  - apply andb_true_iff in E; destruct E as [_ E]. zbool. cbn [app]. unfold scan_date_text.
+    change (is_digit 45) with false. rewrite andb_false_r. rewrite digit_48 by lia.
+    rewrite scan_mon_year_app by lia. unfold digit_val. f_equal. f_equal. f_equal. f_equal. lia.
+  - unfold r_two. cbn [app]. unfold scan_date_text. rewrite !digit_48 by lia. cbn [andb].
+    rewrite scan_mon_year_app by lia. rewrite two_r_two by lia. reflexivity.
+Qed.
+
+Ltac napp := repeat (rewrite <- app_assoc || rewrite <- app_comm_cons || rewrite app_nil_l).
+
+Lemma p_date_app ch site d r : date_wf d = true -> p_date (r_date ch site d ++ r) = ROk d r.
+Proof.
+  destruct d as [[y m] dd]. intros H. pose proof H as H'. unfold date_wf in H'. zbool.
+  destruct (date_ok_range _ _ _ H1) as [Hy Hd].
+  unfold p_date, r_date. destruct (c_opt ch site).
+  - napp. unfold scan_date. change (34 =? 34) with true. cbv iota.
+    rewrite (scan_date_text_app ch site y m dd (34 :: r) H). change (34 =? 34) with true. cbv iota.
+    rewrite H1. reflexivity.
+  - napp. pose proof (scan_date_text_app ch site y m dd r H) as P. unfold scan_date.
+    destruct (c_opt ch (site + 1) && (dd <? 10)); unfold r_two in *; cbn [app] in *;
+      (match goal with |- context [?c =? 34] => replace (c =? 34) with false by (symmetry; apply Z.eqb_neq; lia) end);
+      rewrite P, H1; reflexivity.
+Qed.
+
+Lemma p_date_time_app ch site t r : date_time_wf t = true -> p_date_time (r_date_time ch site t ++ r) = ROk t r.
+Proof.
+  destruct t as [[[[[[y m] d] h] mi] s] off]. unfold date_time_wf. intros H. zbool.
+  destruct (date_ok_range _ _ _ H9) as [Hy Hd].
+  set (a := Z.abs off).
+  assert (Ha : 0 <= a < 86400) by (unfold a; lia).
+  assert (Hzh : 0 <= a / 3600 <= 23) by lia.
+  assert (Hzm : 0 <= (a / 60) mod 60 <= 59) by lia.
+  assert (Hoff : a / 3600 * 3600 + (a / 60) mod 60 * 60 = a) by (unfold a in *; lia).
+  unfold p_date_time, r_date_time. fold a.
+  assert (E : scan_date_time
+    ((34 :: (if c_opt ch site && (d <? 10) then [32; 48 + d] else r_two d) ++
+      45 :: kw ch site (month_name m) ++ 45 :: r_four y ++ 32 :: r_two h ++ 58 :: r_two mi ++ 58 :: r_two s ++
+      32 :: (if off <? 0 then 45 else 43) :: r_two (a / 3600) ++ r_two ((a / 60) mod 60) ++ [34]) ++ r)
+    = Some (d, m, y, h, mi, s, (off <? 0), a / 3600, (a / 60) mod 60, r)).
+  { napp.
+    assert (Tail : forall d1 d2, ((d1 =? 32) || is_digit d1) = true -> is_digit d2 = true ->
+       scan_date_time (34 :: d1 :: d2 :: 45 :: kw ch site (month_name m) ++ 45 :: r_four y ++ 32 :: r_two h ++
+         58 :: r_two mi ++ 58 :: r_two s ++ 32 :: (if off <? 0 then 45 else 43) :: r_two (a / 3600) ++
+         r_two ((a / 60) mod 60) ++ 34 :: r)
+       = Some ((if d1 =? 32 then digit_val d2 else two d1 d2), m, y, h, mi, s, (off <? 0), a / 3600, (a / 60) mod 60, r)).
+    { intros d1 d2 G1 G2. unfold scan_date_time. change (34 =? 34) with true. rewrite G1, G2. cbn [andb].
+      rewrite scan_mon_year_app by lia. unfold r_two. cbn [app].
+      change (32 =? 32) with true. change (58 =? 58) with true. change (34 =? 34) with true.
+      rewrite !digit_48 by lia. cbn [andb].
+      replace (((if off <? 0 then 45 else 43) =? 45) || ((if off <? 0 then 45 else 43) =? 43)) with true
+        by (destruct (off <? 0); reflexivity).
+      cbn [andb]. rewrite !two_r_two by lia.
+      replace ((if off <? 0 then 45 else 43) =? 45) with (off <? 0) by (destruct (off <? 0); reflexivity).
+      reflexivity. }
+    destruct (c_opt ch site && (d <? 10)) eqn:C.
+    - apply andb_true_iff in C; destruct C as [_ C]. zbool. cbn [app].
+      rewrite Tail; [|reflexivity|apply digit_48; lia]. change (32 =? 32) with true. unfold digit_val.
+      replace (48 + d - 48) with d by lia. reflexivity.
+    - unfold r_two at 1. cbn [app]. rewrite Tail; [|rewrite digit_48 by lia; apply orb_true_r|apply digit_48; lia].
+      replace (48 + d / 10 =? 32) with false by (symmetry; apply Z.eqb_neq; lia).
+      rewrite two_r_two by lia. reflexivity. }
+  rewrite E. unfold fix_year. replace (y <? 100) with false by (symmetry; apply Z.ltb_ge; lia).
+  rewrite H9. rewrite Hoff.
+  replace (h <=? 23) with true by (symmetry; apply Z.leb_le; lia).
+  replace (mi <=? 59) with true by (symmetry; apply Z.leb_le; lia).
+  replace (s <=? 59) with true by (symmetry; apply Z.leb_le; lia).
+  replace (a <? 86400) with true by (symmetry; apply Z.ltb_lt; lia).
+  cbn [andb]. destruct (Z.ltb_spec off 0); do 2 f_equal; unfold a; lia.
+Qed.
+
+(* ------------------------------------------------------------------ lists *)
+Definition head_ok (s : list Z) : Prop := match s with c :: _ => c <> 41 | [] => False end.
+
+Lemma try_lit_41_none s r : head_ok s -> try_lit [41] (s ++ r) = None.
+Proof.
+  destruct s as [|c s]; cbn [head_ok app]; [contradiction|]. intros H. unfold try_lit. apply match_ci_ne.
+  change (py_lower 41) with 41. unfold py_lower. zb.
+  destruct (65 <=? c) eqn:E1, (c <=? 90) eqn:E2, (192 <=? c) eqn:E3, (c <=? 222) eqn:E4, (c =? 215) eqn:E5;
+    cbn [andb negb]; zbool; lia.
+Qed.
+
+Lemma sep_by_cons2 {A} (f : A -> list Z) x y l : sep_by f (x :: y :: l) = f x ++ 32 :: sep_by f (y :: l).
+Proof. reflexivity. Qed.
+
+Lemma paren_list_loop_ok {A} (elem : parser A) (f : A -> list Z) :
+  forall l rest fuel, l <> [] ->
+    Forall (fun x => forall r, stops r = true -> elem (f x ++ r) = ROk x r) l ->
+    Nat.lt (List.length (sep_by f l ++ 41 :: rest)) fuel ->
+    paren_list_loop elem fuel (sep_by f l ++ 41 :: rest) = ROk l rest.
+Proof.
+  induction l as [|x l IH]; intros rest fuel Hne Hall Hlen; [contradiction|].
+  destruct fuel as [|fuel]; [lia|]. inversion Hall as [|? ? Hx Hl]; subst.
+  destruct l as [|y l].
+  - cbn [sep_by paren_list_loop]. rewrite Hx by reflexivity. reflexivity.
+  - rewrite sep_by_cons2 in *. rewrite <- app_assoc in *. rewrite <- app_comm_cons in *.
+    cbn [paren_list_loop]. rewrite Hx by reflexivity.
+    change (try_lit [41] (32 :: sep_by f (y :: l) ++ 41 :: rest)) with (@None (list Z)).
+    rewrite p_sp_cons. rewrite IH; [reflexivity|discriminate|exact Hl|].
+    rewrite app_length in Hlen. cbn [List.length] in Hlen. lia.
+Qed.
+
+Lemma p_paren_list_of_app {A} (elem : parser A) (f : A -> list Z) l rest :
+  (l <> [] -> head_ok (sep_by f l)) ->
+  Forall (fun x => forall r, stops r = true -> elem (f x ++ r) = ROk x r) l ->
+  p_paren_list_of elem (r_paren f l ++ rest) = ROk l rest.
+Proof.
+  intros Hh Hall. unfold p_paren_list_of, r_paren. rewrite <- app_comm_cons, <- app_assoc. cbn [app].
+  change (p_lit [40] (40 :: sep_by f l ++ 41 :: rest)) with (ROk tt (sep_by f l ++ 41 :: rest)).
+  destruct l as [|x l]; [reflexivity|].
+  rewrite try_lit_41_none by (apply Hh; discriminate).
+  apply paren_list_loop_ok; [discriminate|exact Hall|lia].
+Qed.
+
+Lemma list_loop_ok {A} (elem : parser A) (f : A -> list Z) :
+  forall l rest fuel, l <> [] ->
+    Forall (fun x => forall r, stops r = true -> elem (f x ++ r) = ROk x r) l ->
+    stops rest = true -> try_lit sp rest = None ->
+    Nat.lt (List.length (sep_by f l ++ rest)) fuel ->
+    list_loop elem fuel (sep_by f l ++ rest) = ROk l rest.
+Proof.
+  induction l as [|x l IH]; intros rest fuel Hne Hall Hs Hn Hlen; [contradiction|].
+  destruct fuel as [|fuel]; [lia|]. inversion Hall as [|? ? Hx Hl]; subst.
+  destruct l as [|y l].
+  - cbn [sep_by list_loop]. rewrite Hx by exact Hs. rewrite Hn. reflexivity.
+  - rewrite sep_by_cons2 in *. rewrite <- app_assoc in *. rewrite <- app_comm_cons in *.
+    cbn [list_loop]. rewrite Hx by reflexivity.
+    change (try_lit sp (32 :: sep_by f (y :: l) ++ rest)) with (Some (sep_by f (y :: l) ++ rest)). cbv iota.
+    rewrite IH; [reflexivity|discriminate|exact Hl|exact Hs|exact Hn|].
+    rewrite app_length in Hlen. cbn [List.length] in Hlen. lia.
+Qed.
+
+Lemma p_list_of_app {A} (elem : parser A) (f : A -> list Z) l rest :
+  l <> [] -> Forall (fun x => forall r, stops r = true -> elem (f x ++ r) = ROk x r) l ->
+  stops rest = true -> try_lit sp rest = None ->
+  p_list_of elem (sep_by f l ++ rest) = ROk l rest.
+Proof. intros. unfold p_list_of. apply list_loop_ok; auto. Qed.
+
+(* the two possible ends of a command *)
+Lemma stops_nil : stops [] = true. Proof. reflexivity. Qed.
+Lemma stops_crlf : stops [13; 10] = true. Proof. reflexivity. Qed.
+Lemma stops_sp r : stops (32 :: r) = true. Proof. reflexivity. Qed.
+Lemma stops_rp r : stops (41 :: r) = true. Proof. reflexivity. Qed.
